@@ -398,7 +398,8 @@ type CLIOpt struct {
 	Stdin   string
 	Env     []string // additional KEY=VALUE
 	Timeout time.Duration
-	UID     int // non-zero: run as this uid/gid
+	UID     int                 // non-zero: run as this uid/gid
+	OnStart func(p *os.Process) // optional: called once the process has been started (e.g. to signal it from outside)
 }
 
 // CLI runs the csvq binary.
@@ -432,7 +433,15 @@ func CLI(o CLIOpt) CLIRes {
 	}
 	cmd.WaitDelay = 2 * time.Second
 	start := time.Now()
-	err := cmd.Run()
+	var err error
+	if o.OnStart != nil {
+		if err = cmd.Start(); err == nil {
+			o.OnStart(cmd.Process)
+			err = cmd.Wait()
+		}
+	} else {
+		err = cmd.Run()
+	}
 	r := CLIRes{Stdout: so.String(), Stderr: se.String(), Dur: time.Since(start)}
 	if ctx.Err() == context.DeadlineExceeded {
 		r.TimedOut = true
